@@ -70,3 +70,29 @@ pub open spec fn ts_of(s: Slot) -> int {
         Slot::Dead(t) => t as int,
     }
 }
+
+pub open spec fn sk_merge(s: Slot, o: Slot, s_before_lo: bool, o_before_ls: bool) -> Slot {
+    match o {
+        Slot::Live(t) => match s {
+            Slot::Empty => Slot::Live(t),
+            Slot::Live(e) => if e < t { Slot::Live(t) } else { Slot::Live(e) },
+            Slot::Dead(d) => if t < d { Slot::Dead(d) } else { Slot::Live(t) },
+        },
+        Slot::Dead(t) => if o_before_ls {
+            match s {
+                Slot::Live(e) => if s_before_lo { Slot::Empty } else { Slot::Live(e) },
+                _ => s,
+            }
+        } else {
+            match s {
+                Slot::Empty => Slot::Dead(t),
+                Slot::Dead(d) => if d < t { Slot::Dead(t) } else { Slot::Dead(d) },
+                Slot::Live(e) => if s_before_lo { Slot::Dead(t) } else if e < t { Slot::Dead(t) } else { Slot::Live(e) },
+            }
+        },
+        Slot::Empty => match s {
+            Slot::Live(e) => if s_before_lo { Slot::Empty } else { Slot::Live(e) },
+            _ => s,
+        },
+    }
+}
